@@ -387,8 +387,9 @@ def model_case(case, obs):
         opts = obs.get("pos_list")
         if opts is None:   # set-up failed: the positive spellings of the two situations where the prefix is known
             opts = ["--" + (fw["prefix"] + c["name"]).replace("_", "-" if c["dash"] == "DASH" else "_")]
-        return {"opts": opts, "neg_prefix": c["neg_prefix"] or "--no", "neg_option": c["neg_option"],
-                "conflict_prefix": fw["prefix"]}
+        # what FieldWrapper hands over as _conflict_prefix (field_wrapper.py:388-393): its prefix, dashed under DASH
+        cp = fw["prefix"].replace("_", "-") if c["dash"] == "DASH" else fw["prefix"]
+        return {"opts": opts, "neg_prefix": c["neg_prefix"] or "--no", "neg_option": c["neg_option"], "conflict_prefix": cp}
     if op == "bool.e2e":
         fw = obs.get("fw") or _indep_fw(c)
         return {"cfg": {"dash": c["dash"], "gen": _gen_mode(c["situation"]), "nest": c.get("nest", "DEFAULT")}, "fw": fw,
@@ -626,24 +627,7 @@ def neighbours(case, rng):
             yield {"op": E2E_OP, "case": dict(base, occs=occs)}
 
 
-def _f_user_prefix(case, obs, fail):
-    """add_arguments(..., prefix=<not ending in '.'>) + a declared negative_option: bare AssertionError at set-up"""
-    c = case["case"]
-    return (fail.get("clause") == "setup" and USER_PREFIX.get(c.get("situation"), ".").endswith(".") is False
-            and c.get("neg_option") is not None and obs.get("setup", {}).get("exc") == "AssertionError")
-
-
-def _f_dash_prefix(case, obs, fail):
-    """DASH variant: the positive option spells the conflict prefix with dashes (--my-a.flag), the declared negative option
-    keeps the underscores (--my_a.silent)"""
-    c = case["case"]
-    if not (fail.get("clause") == "neg-counterpart" and c.get("dash") == "DASH" and c.get("neg_option") is not None
-            and c.get("situation") == "auto2_us" and len(obs.get("neg", [])) == 1):
-        return False
-    return obs["neg"][0].lstrip("-") == "my_a." + c["neg_option"].lstrip("-") and all("_" not in p for p in obs["pos"])
-
-
-FINDINGS = {"C12-explicit-neg-user-prefix": _f_user_prefix, "C12-explicit-neg-dash-variant": _f_dash_prefix}
+FINDINGS = {}   # C12-explicit-neg-user-prefix and C12-explicit-neg-dash-variant are fixed (repo 7335e5b, c681aea)
 
 MANIFEST = {
     "text": ("Proof, for the occurrence algebra, the vocabulary AND the negative option strings. Lean theorems over the "
@@ -657,8 +641,9 @@ MANIFEST = {
              "on spellings with equal dash count for every negative prefix (so the negatives of different long spellings — "
              "same-named fields at different destinations — never collide; the version without the dash-count hypothesis is "
              "refuted by -a/--a, which the code merges on purpose), the explicit negative option carries the conflict prefix "
-             "and is injective in it when the prefix is empty or ends in a dot, and raises otherwise (full statement refuted "
-             "by a witness: open finding C12-explicit-neg-user-prefix). End to end: for EVERY dash variant, generation mode, "
+             "for every prefix, with or without a final dot (full statement, never raises; the former witness of the fixed "
+             "finding is a regression example), is injective in the prefix, and end to end it carries exactly the prefix the "
+             "positive option shows in every configuration incl. DASH (ExplicitMatchesPositive, full). End to end: for EVERY dash variant, generation mode, "
              "nested mode, name, prefix, destination and alias list the option strings of the field (Model/Naming) all get "
              "counterparts, a token is a negative occurrence iff it is a negative option string (tested first, as in the "
              "code), and a command line ending in a negative / positive / valued spelling yields False / True / the named "
@@ -671,8 +656,8 @@ MANIFEST = {
     "note": ("Trusted: Lean kernel + propext/Classical.choice/Quot.sound; argparse's lexing, `--opt=value` splitting and "
              "nargs='?' consumption (stdlib, exercised end-to-end: the model receives (option string, value) pairs); the "
              "harness. Modelled not verified: custom_actions.py:22-172, utils.py:115-132 (ASCII case folding and ASCII "
-             "blanks only; non-ASCII blanks oracle-only), field_wrapper.py:377-387 (the conflict prefix handed to the action "
-             "is FieldWrapper.prefix, read from the real wrapper). The oracle's explicit-negative clause reads the conflict "
+             "blanks only; non-ASCII blanks oracle-only), field_wrapper.py:377-393 (the conflict prefix handed to the action "
+             "is FieldWrapper.prefix, dashed under DASH; the prefix is read from the real wrapper). The oracle's explicit-negative clause reads the conflict "
              "prefix off the positive flat spelling; in NESTED-only mode it expects the bare declared option (no promise in "
              "the text). A rejection without a stderr message is tagged, not demanded."),
     "technique": "Lean 4 induction over the occurrence list and list/string lemmas for the option surgery + differential correspondence against BooleanOptionalAction and the real parser",
